@@ -7,7 +7,7 @@ from ..fold import Folder, Record, EnumMember, Ref, is_unknown, single_return_ex
 from ..absint import Interp, Hooks, State, K, Sym, Obj, Exc, NONE, ListVal
 from ..report import Check
 from .. import util
-from .common import ForkHooks, labels_of, suite_reading_method
+from .common import ForkHooks, labels_of, suite_reading_method, check_no_shared_class_state
 
 P = 'exactly_lib.processing.processors'
 EXECUTOR_MOD = 'exactly_lib.execution.partial_execution.impl.executor'
@@ -197,6 +197,9 @@ def clause_a(c: Check):
                               'a process-wide cache (%s) keeps values between cases' % d, f.loc())
     c.ok('C17-a', 'module-state/none', '%d execution modules: no global statement, no process-wide cache' % n_mod)
     c.floor('C17-a', 'execution modules scanned', n_mod, 150)
+    # ... nor kept in a container bound in a class body (shared by all instances for the life of the process)
+    check_no_shared_class_state(c, 'C17-a', ['exactly_lib'], 1500,
+                                'what one test case stores there is found by the following cases of the suite')
 
 
 # ---------------------------------------------------------------- c
